@@ -294,6 +294,13 @@ func c18Op(t []string) string {
 		_, err = io.Copy(io.Discard, io.LimitReader(r, 1<<20))
 		return err
 	}
+	hint := 4
+	if i := strings.IndexByte(op, '#'); i >= 0 {
+		// <op>#<hint>: the caller's chunk-size hint (a hint: any int may be passed)
+		h, _ := strconv.ParseInt(op[i+1:], 10, 64)
+		hint = int(h)
+		op = op[:i]
+	}
 	var err error
 	switch op {
 	case "GetBlob":
@@ -316,11 +323,11 @@ func c18Op(t []string) string {
 		var w ociregistry.BlobWriter
 		switch op {
 		case "PushBlobChunked":
-			w, err = cl.PushBlobChunked(ctx, "foo", 4)
+			w, err = cl.PushBlobChunked(ctx, "foo", hint)
 		case "Resume":
-			w, err = cl.PushBlobChunkedResume(ctx, "foo", "/v2/foo/blobs/uploads/abc", 3, 4)
+			w, err = cl.PushBlobChunkedResume(ctx, "foo", "/v2/foo/blobs/uploads/abc", 3, hint)
 		default:
-			w, err = cl.PushBlobChunkedResume(ctx, "foo", "/v2/foo/blobs/uploads/abc", -1, 4)
+			w, err = cl.PushBlobChunkedResume(ctx, "foo", "/v2/foo/blobs/uploads/abc", -1, hint)
 		}
 		if err == nil {
 			// keep using the writer whatever it answers, as a caller that logs and carries on would
@@ -528,6 +535,22 @@ func (*c18) Gen(rng *RNG, tier string) []Case {
 				}
 				cases = append(cases, Case{Tag: "directed-bad-digest-argument", Lines: []string{line}})
 			}
+		}
+	}
+	// directed: chunk-size hints of every magnitude (the interface calls the argument a hint; it must not be trusted
+	// as an allocation size)
+	for _, op := range []string{"PushBlobChunked", "Resume", "ResumeAsk"} {
+		for _, h := range []string{"-9223372036854775808", "-1", "0", "1", "1125899906842624", "9223372036854775807"} {
+			ok := fmt.Sprintf("202 x 2 %s %s %s %s", tok("Location"), tok("/v2/foo/blobs/uploads/abc"), tok("Range"), tok("0-0"))
+			if op == "ResumeAsk" {
+				ok = fmt.Sprintf("204 x 2 %s %s %s %s", tok("Location"), tok("/v2/foo/blobs/uploads/abc"), tok("Range"), tok("0-2"))
+			}
+			line := fmt.Sprintf("cl 0 %s#%s 6", op, h)
+			for j := 0; j < 5; j++ {
+				line += " " + ok
+			}
+			line += fmt.Sprintf(" 201 x 1 %s %s", tok("Location"), tok("/v2/foo/blobs/sha256:e3b0c44298fc1c149afbf4c8996fb92427ae41e4649b934ca495991b7852b855"))
+			cases = append(cases, Case{Tag: "directed-chunk-size-hint", Lines: []string{line}})
 		}
 	}
 	// arbitrary responses for every operation
